@@ -109,7 +109,7 @@ pub fn vec_extend(a: &mut Vec<Identifier>, b: Vec<Identifier>)
 //@end
 
 // ---------- code under contract
-//~not_decided the declaration part of find_vars (filter_map/find over parameters and local declarations), find_procs, find_types, conversion to TextEdits, prepare-rename (async handlers), binding/scoping (LookupTable/HashMap): "occurrences of one binding" is decided for the statements of one procedure, not across declarations
+//~not_decided which procedure find_vars looks into (filter_map/find over the global declarations), find_procs, the body of find_types, conversion to TextEdits, prepare-rename (async handlers), binding/scoping (LookupTable/HashMap): "occurrences of one binding" is decided for the statements of one procedure, not across declarations
 //@extract lsp4spl/src/features/references.rs :: fn find_vars :: fn find_in_variable
 //@ rewrite string_eq_str vec_extend
 //@ ret r
@@ -244,6 +244,79 @@ pub proof fn lemma_fit_stmts(v: Vec<Reference<Statement>>, name: Seq<char>, n: n
                     ensures out@ == ids_plus(occ_expr(expr.reference, name@), expr.offset as int),
 //@ after_closure |expr|
 , Ghost(|s: Reference<Expression>| ids_plus(occ_expr(s.reference, name@), s.offset as int))
+//@end
+
+// ---------- find_vars, inside the procedure that declares the variable: declarations of parameters and locals, then every statement
+pub open spec fn param_decl_occ(p: Reference<ParameterDeclaration>, name: Seq<char>) -> Option<Identifier> {
+    match p.reference {
+        ParameterDeclaration::Valid { doc, is_ref, name: n, type_expr, info } => match n { Some(id) => if id.value@ == name { Some(id_plus(id, p.offset as int)) } else { None }, None => None },
+        ParameterDeclaration::Error(_) => None,
+    }
+}
+pub open spec fn var_decl_occ(v: Reference<VariableDeclaration>, name: Seq<char>) -> Option<Identifier> {
+    match v.reference {
+        VariableDeclaration::Valid { doc, name: n, type_expr, info } => match n { Some(id) => if id.value@ == name { Some(id_plus(id, v.offset as int)) } else { None }, None => None },
+        VariableDeclaration::Error(_) => None,
+    }
+}
+/// the Some results of g over the first n items, in order
+pub open spec fn filter_ids<T>(items: Seq<T>, g: spec_fn(T) -> Option<Identifier>, n: nat) -> Seq<Identifier>
+    decreases n
+{
+    if n == 0 || n > items.len() { Seq::empty() } else { filter_ids(items, g, (n - 1) as nat) + (match g(items[n - 1]) { Some(id) => seq![id], None => Seq::empty() }) }
+}
+//~assume `xs.iter().filter_map(f).collect()` applies f to every element of xs in order and keeps the Some results (std iterator semantics; R8)
+#[verifier::external_body]
+pub fn filter_map_collect<T, F: Fn(&T) -> Option<Identifier>>(items: &Vec<T>, f: F, Ghost(g): Ghost<spec_fn(T) -> Option<Identifier>>) -> (r: Vec<Identifier>)
+    requires
+        forall|i: int| 0 <= i < items@.len() ==> call_requires(f, (&#[trigger] items@[i],)),
+        forall|i: int, out: Option<Identifier>| 0 <= i < items@.len() && #[trigger] call_ensures(f, (&items@[i],), out) ==> out == g(items@[i]),
+    ensures r@ == filter_ids(items@, g, items@.len()),
+{ items.iter().filter_map(f).collect() }
+/// "one edit per occurrence of that binding (declaration included)": the declaring parameter / local, then the uses in order
+pub open spec fn occ_proc(pd: ProcedureDeclaration, name: Seq<char>) -> Seq<Identifier> {
+    filter_ids(pd.parameters@, |p: Reference<ParameterDeclaration>| param_decl_occ(p, name), pd.parameters@.len())
+    + filter_ids(pd.variable_declarations@, |v: Reference<VariableDeclaration>| var_decl_occ(v, name), pd.variable_declarations@.len())
+    + occ_stmts(pd.statements, name, pd.statements@.len())
+}
+pub open spec fn fit_proc(pd: ProcedureDeclaration, name: Seq<char>, offset: usize) -> bool {
+    (forall|i: int| 0 <= i < pd.parameters@.len() ==> match (#[trigger] pd.parameters@[i]).reference {
+        ParameterDeclaration::Valid { doc, is_ref, name: n, type_expr, info } => n is Some ==> range_fits(n->0.info.range, pd.parameters@[i].offset as int), _ => true })
+    && (forall|i: int| 0 <= i < pd.variable_declarations@.len() ==> match (#[trigger] pd.variable_declarations@[i]).reference {
+        VariableDeclaration::Valid { doc, name: n, type_expr, info } => n is Some ==> range_fits(n->0.info.range, pd.variable_declarations@[i].offset as int), _ => true })
+    && fit_stmts(pd.statements, name, pd.statements@.len())
+    && ids_fit(occ_proc(pd, name), offset as int)
+}
+//@extract lsp4spl/src/features/references.rs :: fn find_vars :: closure |(pd, offset)|
+//@ rewrite vec_extend filter_map_collect flat_map_collect string_eq_str
+//@ lift pub fn find_vars_in_proc(pd: &ProcedureDeclaration, offset: usize, name: &str) -> (r: Vec<Identifier>)
+//@ sig
+    requires fit_proc(*pd, name@, offset),
+    ensures r@ == ids_plus(occ_proc(*pd, name@), offset as int), //# find_vars::declaration_and_every_use_in_the_procedure
+//@ closure |param| : &Reference<ParameterDeclaration>
+ -> (out: Option<Identifier>)
+                    requires match param.reference { ParameterDeclaration::Valid { doc, is_ref, name: n, type_expr, info } => n is Some ==> range_fits(n->0.info.range, param.offset as int), _ => true },
+                    ensures out == param_decl_occ(*param, name@),
+//@ after_closure |param|
+, Ghost(|p: Reference<ParameterDeclaration>| param_decl_occ(p, name@))
+//@ closure |vd| : &Reference<VariableDeclaration>
+ -> (out: Option<Identifier>)
+                    requires match vd.reference { VariableDeclaration::Valid { doc, name: n, type_expr, info } => n is Some ==> range_fits(n->0.info.range, vd.offset as int), _ => true },
+                    ensures out == var_decl_occ(*vd, name@),
+//@ after_closure |vd|
+, Ghost(|v: Reference<VariableDeclaration>| var_decl_occ(v, name@))
+//@ closure |stmt| : &Reference<Statement>
+ -> (out: Vec<Identifier>)
+                    requires fit_stmt(stmt.reference, name@) && ids_fit(occ_stmt(stmt.reference, name@), stmt.offset as int),
+                    ensures out@ == ids_plus(occ_stmt(stmt.reference, name@), stmt.offset as int),
+//@ after_closure |stmt|
+, Ghost(|s: Reference<Statement>| ids_plus(occ_stmt(s.reference, name@), s.offset as int))
+//@ before "let stmt_idents: Vec<_> ="
+proof { assert forall|i: int| 0 <= i < pd.statements@.len() implies fit_stmt((#[trigger] pd.statements@[i]).reference, name@) && ids_fit(occ_stmt(pd.statements@[i].reference, name@), pd.statements@[i].offset as int) by { lemma_fit_stmts(pd.statements, name@, pd.statements@.len(), i); } }
+            
+//@ before "idents.shift(offset)"
+proof { lemma_flat_occ_stmts(pd.statements, name@, |s: Reference<Statement>| ids_plus(occ_stmt(s.reference, name@), s.offset as int), pd.statements@.len()); }
+            
 //@end
 
 // ---------- find_types::get_ident_in_type_expr: the type name at the bottom of a (nested) array type, with all offsets
